@@ -1,0 +1,151 @@
+//go:build verif
+
+package zlint
+
+// Machine-checked contracts for the verification machinery in /verif (govc).
+// This file contains comments only and is compiled only with -tags verif.
+
+//@ func (*ResultSet).updateErrorStatePresent [C01]
+//@   requires z != nil && result != nil
+//@   nopanic
+//@   assigns z.NoticesPresent, z.WarningsPresent, z.ErrorsPresent, z.FatalsPresent
+//@   ensures z.NoticesPresent  == (old(z.NoticesPresent)  || result.Status == lint.Notice)
+//@   ensures z.WarningsPresent == (old(z.WarningsPresent) || result.Status == lint.Warn)
+//@   ensures z.ErrorsPresent   == (old(z.ErrorsPresent)   || result.Status == lint.Error)
+//@   ensures z.FatalsPresent   == (old(z.FatalsPresent)   || result.Status == lint.Fatal)
+
+// L(): the list of certificate lints the registry handed out (ghost: return value of
+// the traced Lints() call); R(j): the result stored for the j-th lint.
+//@ spec certDone(z *ResultSet, L []*lint.CertificateLint, k int) bool =
+//@      forall(j, 0, k, indom(z.Results, L[j].Name) && z.Results[L[j].Name] != nil && allocated(z.Results[L[j].Name]) &&
+//@                      z.Results[L[j].Name].LintMetadata == L[j].LintMetadata &&
+//@                      1 <= z.Results[L[j].Name].Status && z.Results[L[j].Name].Status <= 7) &&
+//@      all(n, string, implies(indom(z.Results, n), exists(j, 0, k, L[j].Name == n)))
+//@ spec certFlag(z *ResultSet, L []*lint.CertificateLint, k int, s lint.LintStatus) bool =
+//@      exists(j, 0, k, z.Results[L[j].Name].Status == s)
+
+//@ func (*ResultSet).executeCertificate [C01]
+//@   requires z != nil && o != nil && registry != nil
+//@   requires !z.NoticesPresent && !z.WarningsPresent && !z.ErrorsPresent && !z.FatalsPresent
+//@   nopanic
+//@   assigns \fresh, z.Results, z.NoticesPresent, z.WarningsPresent, z.ErrorsPresent, z.FatalsPresent
+//@   loop 1 invariant z.Results != nil && fresh(z.Results) && allocated(z.Results) && wfCertLints(g.retLints) && g.nLints == 1 && k <= len(g.retLints)
+//@   loop 1 invariant certDone(z, g.retLints, k)
+//@   loop 1 invariant z.NoticesPresent  == certFlag(z, g.retLints, k, lint.Notice)
+//@   loop 1 invariant z.WarningsPresent == certFlag(z, g.retLints, k, lint.Warn)
+//@   loop 1 invariant z.ErrorsPresent   == certFlag(z, g.retLints, k, lint.Error)
+//@   loop 1 invariant z.FatalsPresent   == certFlag(z, g.retLints, k, lint.Fatal)
+//@   ensures g.nLints == 1 && certDone(z, g.retLints, len(g.retLints))
+//@   ensures z.NoticesPresent  == certFlag(z, g.retLints, len(g.retLints), lint.Notice)
+//@   ensures z.WarningsPresent == certFlag(z, g.retLints, len(g.retLints), lint.Warn)
+//@   ensures z.ErrorsPresent   == certFlag(z, g.retLints, len(g.retLints), lint.Error)
+//@   ensures z.FatalsPresent   == certFlag(z, g.retLints, len(g.retLints), lint.Fatal)
+
+// same for crl: the list of lints the registry handed out (ghost: return value of
+// the traced Lints() call); R(j): the result stored for the j-th lint.
+//@ spec crlDone(z *ResultSet, L []*lint.RevocationListLint, k int) bool =
+//@      forall(j, 0, k, indom(z.Results, L[j].Name) && z.Results[L[j].Name] != nil && allocated(z.Results[L[j].Name]) &&
+//@                      z.Results[L[j].Name].LintMetadata == L[j].LintMetadata &&
+//@                      1 <= z.Results[L[j].Name].Status && z.Results[L[j].Name].Status <= 7) &&
+//@      all(n, string, implies(indom(z.Results, n), exists(j, 0, k, L[j].Name == n)))
+//@ spec crlFlag(z *ResultSet, L []*lint.RevocationListLint, k int, s lint.LintStatus) bool =
+//@      exists(j, 0, k, z.Results[L[j].Name].Status == s)
+
+//@ func (*ResultSet).executeRevocationList [C01]
+//@   requires z != nil && o != nil && registry != nil
+//@   requires !z.NoticesPresent && !z.WarningsPresent && !z.ErrorsPresent && !z.FatalsPresent
+//@   maypanic
+//@   assigns \fresh, z.Results, z.NoticesPresent, z.WarningsPresent, z.ErrorsPresent, z.FatalsPresent
+//@   loop 1 invariant z.Results != nil && fresh(z.Results) && allocated(z.Results) && wfCrlLints(g.retCrlLints) && g.nCrlLints == 1 && k <= len(g.retCrlLints)
+//@   loop 1 invariant crlDone(z, g.retCrlLints, k)
+//@   loop 1 invariant z.NoticesPresent  == crlFlag(z, g.retCrlLints, k, lint.Notice)
+//@   loop 1 invariant z.WarningsPresent == crlFlag(z, g.retCrlLints, k, lint.Warn)
+//@   loop 1 invariant z.ErrorsPresent   == crlFlag(z, g.retCrlLints, k, lint.Error)
+//@   loop 1 invariant z.FatalsPresent   == crlFlag(z, g.retCrlLints, k, lint.Fatal)
+//@   ensures g.nCrlLints == 1 && crlDone(z, g.retCrlLints, len(g.retCrlLints))
+//@   ensures z.NoticesPresent  == crlFlag(z, g.retCrlLints, len(g.retCrlLints), lint.Notice)
+//@   ensures z.WarningsPresent == crlFlag(z, g.retCrlLints, len(g.retCrlLints), lint.Warn)
+//@   ensures z.ErrorsPresent   == crlFlag(z, g.retCrlLints, len(g.retCrlLints), lint.Error)
+//@   ensures z.FatalsPresent   == crlFlag(z, g.retCrlLints, len(g.retCrlLints), lint.Fatal)
+
+// same for ocsp: the list of lints the registry handed out (ghost: return value of
+// the traced Lints() call); R(j): the result stored for the j-th lint.
+//@ spec ocspDone(z *ResultSet, L []*lint.OcspResponseLint, k int) bool =
+//@      forall(j, 0, k, indom(z.Results, L[j].Name) && z.Results[L[j].Name] != nil && allocated(z.Results[L[j].Name]) &&
+//@                      z.Results[L[j].Name].LintMetadata == L[j].LintMetadata &&
+//@                      1 <= z.Results[L[j].Name].Status && z.Results[L[j].Name].Status <= 7) &&
+//@      all(n, string, implies(indom(z.Results, n), exists(j, 0, k, L[j].Name == n)))
+//@ spec ocspFlag(z *ResultSet, L []*lint.OcspResponseLint, k int, s lint.LintStatus) bool =
+//@      exists(j, 0, k, z.Results[L[j].Name].Status == s)
+
+//@ func (*ResultSet).executeOcspResponse [C01]
+//@   requires z != nil && o != nil && registry != nil
+//@   requires !z.NoticesPresent && !z.WarningsPresent && !z.ErrorsPresent && !z.FatalsPresent
+//@   maypanic
+//@   assigns \fresh, z.Results, z.NoticesPresent, z.WarningsPresent, z.ErrorsPresent, z.FatalsPresent
+//@   loop 1 invariant z.Results != nil && fresh(z.Results) && allocated(z.Results) && wfOcspLints(g.retOcspLints) && g.nOcspLints == 1 && k <= len(g.retOcspLints)
+//@   loop 1 invariant ocspDone(z, g.retOcspLints, k)
+//@   loop 1 invariant z.NoticesPresent  == ocspFlag(z, g.retOcspLints, k, lint.Notice)
+//@   loop 1 invariant z.WarningsPresent == ocspFlag(z, g.retOcspLints, k, lint.Warn)
+//@   loop 1 invariant z.ErrorsPresent   == ocspFlag(z, g.retOcspLints, k, lint.Error)
+//@   loop 1 invariant z.FatalsPresent   == ocspFlag(z, g.retOcspLints, k, lint.Fatal)
+//@   ensures g.nOcspLints == 1 && ocspDone(z, g.retOcspLints, len(g.retOcspLints))
+//@   ensures z.NoticesPresent  == ocspFlag(z, g.retOcspLints, len(g.retOcspLints), lint.Notice)
+//@   ensures z.WarningsPresent == ocspFlag(z, g.retOcspLints, len(g.retOcspLints), lint.Warn)
+//@   ensures z.ErrorsPresent   == ocspFlag(z, g.retOcspLints, len(g.retOcspLints), lint.Error)
+//@   ensures z.FatalsPresent   == ocspFlag(z, g.retOcspLints, len(g.retOcspLints), lint.Fatal)
+
+// ---------------------------------------------------------------------------
+// the public entry points (C01): complete, well-formed result set
+
+//@ func LintCertificateEx [C01]
+//@   nopanic
+//@   assigns \fresh
+//@   ensures (c == nil) == (result == nil)
+//@   ensures implies(c != nil, fresh(result) && result.Version == 3 && g.nLints == 1 &&
+//@                   certDone(result, g.retLints, len(g.retLints)))
+//@   ensures implies(c != nil, result.NoticesPresent  == certFlag(result, g.retLints, len(g.retLints), lint.Notice))
+//@   ensures implies(c != nil, result.WarningsPresent == certFlag(result, g.retLints, len(g.retLints), lint.Warn))
+//@   ensures implies(c != nil, result.ErrorsPresent   == certFlag(result, g.retLints, len(g.retLints), lint.Error))
+//@   ensures implies(c != nil, result.FatalsPresent   == certFlag(result, g.retLints, len(g.retLints), lint.Fatal))
+//@   ensures implies(c != nil && registry != nil, g.recvLints == registry.CertificateLints())
+//@   ensures implies(c != nil && registry == nil, g.recvLints == lint.GlobalRegistry().CertificateLints())
+
+//@ func LintRevocationListEx [C01]
+//@   maypanic
+//@   assigns \fresh
+//@   ensures (r == nil) == (result == nil)
+//@   ensures implies(r != nil, fresh(result) && result.Version == 3 && g.nCrlLints == 1 &&
+//@                   crlDone(result, g.retCrlLints, len(g.retCrlLints)))
+//@   ensures implies(r != nil, result.NoticesPresent  == crlFlag(result, g.retCrlLints, len(g.retCrlLints), lint.Notice))
+//@   ensures implies(r != nil, result.WarningsPresent == crlFlag(result, g.retCrlLints, len(g.retCrlLints), lint.Warn))
+//@   ensures implies(r != nil, result.ErrorsPresent   == crlFlag(result, g.retCrlLints, len(g.retCrlLints), lint.Error))
+//@   ensures implies(r != nil, result.FatalsPresent   == crlFlag(result, g.retCrlLints, len(g.retCrlLints), lint.Fatal))
+//@   ensures implies(r != nil && registry != nil, g.recvCrlLints == registry.RevocationListLints())
+//@   ensures implies(r != nil && registry == nil, g.recvCrlLints == lint.GlobalRegistry().RevocationListLints())
+
+//@ func LintOcspResponseEx [C01]
+//@   maypanic
+//@   assigns \fresh
+//@   ensures (o == nil) == (result == nil)
+//@   ensures implies(o != nil, fresh(result) && result.Version == 3 && g.nOcspLints == 1 &&
+//@                   ocspDone(result, g.retOcspLints, len(g.retOcspLints)))
+//@   ensures implies(o != nil, result.NoticesPresent  == ocspFlag(result, g.retOcspLints, len(g.retOcspLints), lint.Notice))
+//@   ensures implies(o != nil, result.WarningsPresent == ocspFlag(result, g.retOcspLints, len(g.retOcspLints), lint.Warn))
+//@   ensures implies(o != nil, result.ErrorsPresent   == ocspFlag(result, g.retOcspLints, len(g.retOcspLints), lint.Error))
+//@   ensures implies(o != nil, result.FatalsPresent   == ocspFlag(result, g.retOcspLints, len(g.retOcspLints), lint.Fatal))
+//@   ensures implies(o != nil && registry != nil, g.recvOcspLints == registry.OcspResponseLints())
+//@   ensures implies(o != nil && registry == nil, g.recvOcspLints == lint.GlobalRegistry().OcspResponseLints())
+
+//@ func LintCertificate [C01]
+//@   nopanic
+//@   assigns \fresh
+//@   ensures (c == nil) == (result == nil)
+//@ func LintRevocationList [C01]
+//@   maypanic
+//@   assigns \fresh
+//@   ensures (r == nil) == (result == nil)
+//@ func LintOcspResponse [C01]
+//@   maypanic
+//@   assigns \fresh
+//@   ensures (o == nil) == (result == nil)
